@@ -1,6 +1,9 @@
 package node
 
 import (
+	goruntime "runtime"
+	"sync/atomic"
+
 	"context"
 	"encoding/json"
 	"fmt"
@@ -56,9 +59,9 @@ type HostSetUpdate struct {
 // upgrade handler would); it lives in keeper memory and is re-registered by
 // the harness after every restart.
 type PlanReg struct {
-	ProposalID, Height                         uint64
+	ProposalID, Height                           uint64
 	NextValidator, Moniker, ConsPubKeyJSON, Info string
-	NextExecutors                              []string
+	NextExecutors                                []string
 }
 
 type L2Options struct {
@@ -66,23 +69,24 @@ type L2Options struct {
 }
 
 type L2 struct {
-	DB    dbm.DB
-	Enc   Encoding
-	App   *baseapp.BaseApp
-	Keys  map[string]*storetypes.KVStoreKey
-	AK    authkeeper.AccountKeeper
-	BK    bankkeeper.BaseKeeper
-	OK    *opchildkeeper.Keeper
-	OrK   *oraclekeeper.Keeper
-	Fault *FaultState
-	MM    *module.Manager
+	DB      dbm.DB
+	Enc     Encoding
+	App     *baseapp.BaseApp
+	Keys    map[string]*storetypes.KVStoreKey
+	AK      authkeeper.AccountKeeper
+	BK      bankkeeper.BaseKeeper
+	OK      *opchildkeeper.Keeper
+	OrK     *oraclekeeper.Keeper
+	Fault   *FaultState
+	MM      *module.Manager
 	BankMod bank.AppModule
 
 	Authority string
 
-	pendingHost []HostSetUpdate
-	lastTime    time.Time
+	pendingHost   []HostSetUpdate
+	lastTime      time.Time
 	initialHeight int64
+	blocksEnded   int64 // atomic
 	// InitValidators is the validator set InitChain returned (fresh nodes only)
 	InitValidators []abci.ValidatorUpdate
 	// PlanErrs holds the result of each start-up plan registration
@@ -182,7 +186,7 @@ var l2MaccPerms = map[string][]string{
 func NewL2(db dbm.DB, gen *L2Genesis, opts L2Options, plans []PlanReg) *L2 {
 	enc := MakeEncoding()
 	n := &L2{DB: db, Enc: enc, Fault: &FaultState{Record: true}}
-	bopts := []func(*baseapp.BaseApp){baseapp.SetChainID(L2ChainID)}
+	bopts := []func(*baseapp.BaseApp){baseapp.SetChainID(L2ChainID), baseapp.SetOptimisticExecution()}
 	if opts.MinGasPrices != "" {
 		bopts = append(bopts, baseapp.SetMinGasPrices(opts.MinGasPrices))
 	}
@@ -268,6 +272,7 @@ func NewL2(db dbm.DB, gen *L2Genesis, opts L2Options, plans []PlanReg) *L2 {
 	app.SetEndBlocker(func(ctx sdk.Context) (sdk.EndBlock, error) {
 		ups, err := opchild.EndBlocker(ctx, n.OK)
 		n.LastEndBlockErr = err
+		atomic.AddInt64(&n.blocksEnded, 1)
 		return sdk.EndBlock{ValidatorUpdates: ups}, err
 	})
 	app.SetAnteHandler(sdk.ChainAnteDecorators(
@@ -292,7 +297,6 @@ func NewL2(db dbm.DB, gen *L2Genesis, opts L2Options, plans []PlanReg) *L2 {
 	}
 	return n
 }
-
 
 func (n *L2) initChain(gen *L2Genesis) {
 	state := gen.AppState
@@ -379,6 +383,26 @@ func (n *L2) Finalize(t time.Time, txs [][]byte, host []HostSetUpdate) (*abci.Re
 	n.pendingHost = host
 	n.LastEndBlockErr = nil
 	res, err := n.App.FinalizeBlock(&abci.RequestFinalizeBlock{Height: n.nextHeight(), Time: t, Txs: txs})
+	n.pendingHost = nil
+	if err == nil {
+		n.lastTime = t
+	}
+	return res, err
+}
+
+// FinalizeAfterAbortedOE: see the L1 counterpart.
+func (n *L2) FinalizeAfterAbortedOE(t time.Time, txs [][]byte, host []HostSetUpdate) (*abci.ResponseFinalizeBlock, error) {
+	n.pendingHost = host
+	n.LastEndBlockErr = nil
+	h := n.nextHeight()
+	start := atomic.LoadInt64(&n.blocksEnded)
+	if _, err := n.App.ProcessProposal(&abci.RequestProcessProposal{Height: h, Time: t, Txs: txs, Hash: []byte("proposal-A")}); err != nil {
+		return nil, err
+	}
+	for i := 0; i < 50_000_000 && atomic.LoadInt64(&n.blocksEnded) == start; i++ {
+		goruntime.Gosched()
+	}
+	res, err := n.App.FinalizeBlock(&abci.RequestFinalizeBlock{Height: h, Time: t, Txs: txs, Hash: []byte("proposal-B")})
 	n.pendingHost = nil
 	if err == nil {
 		n.lastTime = t
